@@ -207,15 +207,20 @@ class Prefixed(BaseModel):
     # def __get_validators__(cls):
     #     yield cls.validate
 
+    def _value(self) -> Decimal:
+        """The exact value, as a single (prefix-less) `Decimal`"""
+        return _EXACT.scaleb(self.number, self.prefix.value)
+
     def __hash__(self):
-        return hash((self.number, self.prefix))
+        # Hash by value, so that equal numbers written with different prefixes hash equally.
+        return hash(self._value())
 
     def __int__(self) -> int:
-        return int(self.number) * 10**self.prefix.value
+        return int(self._value())
 
     def __float__(self) -> float:
         """Convert to float"""
-        return float(self.number) * 10**self.prefix.value
+        return float(self._value())
 
     def __neg__(self) -> "Prefixed":
         return Prefixed.new(-self.number, self.prefix)
